@@ -442,3 +442,37 @@ def affine(body, du, op, depth=0):
                     return (c[1] * a[0], c[1] * a[1])
             return None
     return (1, 0)
+
+
+def producer_calls(body, du, op, depth=0, seen=None):
+    """[(callee, bb)] of the calls whose result an operand is, looking through plain copies, casts, references, the
+    payload of Option / Result / tuple values (match arms, `?`), and unwrap-like / conversion calls"""
+    from .facts import callee_of as _co, callee_decl as _cd
+    seen = seen if seen is not None else set()
+    pl = op.get("mv") or op.get("cp")
+    if pl is None or depth > 14:
+        return []
+    l = pl["l"]
+    if l in seen:
+        return []
+    seen.add(l)
+    out = []
+    for d in du.defs.get(l, []):
+        if d[0] == "assign":
+            rv = d[3]["rv"]
+            if rv["k"] in ("use", "cast", "unop"):
+                out += producer_calls(body, du, rv["a"], depth + 1, seen)
+            elif rv["k"] in ("ref", "discr"):
+                out += producer_calls(body, du, {"cp": {"l": rv["p"]["l"], "p": []}}, depth + 1, seen)
+            elif rv["k"] == "agg":
+                for o in rv.get("ops", []):
+                    out += producer_calls(body, du, o, depth + 1, seen)
+        elif d[0] == "call":
+            c = _cd(d[2]) or _co(d[2]) or ""
+            last = c.rsplit("::", 1)[-1]
+            if last in ("clone", "into", "from", "deref", "to_owned", "to_string", "unwrap", "expect", "unwrap_or", "ok_or", "ok_or_else", "branch", "from_residual", "map_err", "as_str", "as_ref", "to_uppercase", "parse", "try_from", "from_arg", "into_inner") and d[2]["args"]:
+                for a in d[2]["args"][:1]:
+                    out += producer_calls(body, du, a, depth + 1, seen)
+            else:
+                out.append((c, d[1]))
+    return out
